@@ -41,10 +41,21 @@ impl PeerSink for CapSink {
 struct World {
     reg: PeerRegistry,
     sinks: HashMap<u64, Arc<CapSink>>,
+    /// run once from inside the serialization of a JSON broadcast's value (user code runs there too)
+    ser_hook: Mutex<Option<Box<dyn FnOnce() + Send>>>,
+}
+/// a value whose Serialize impl runs the world's hook (once) before writing the number
+struct HookSer<'a>(&'a World, u64);
+impl serde::Serialize for HookSer<'_> {
+    fn serialize<S: serde::Serializer>(&self, s: S) -> Result<S::Ok, S::Error> {
+        let h = self.0.ser_hook.lock().unwrap().take();
+        if let Some(h) = h { h(); }
+        s.serialize_u64(self.1)
+    }
 }
 impl World {
     fn new(peers: &[u64]) -> Self {
-        World { reg: PeerRegistry::new(), sinks: peers.iter().map(|p| (*p, Arc::new(CapSink::default()))).collect() }
+        World { reg: PeerRegistry::new(), sinks: peers.iter().map(|p| (*p, Arc::new(CapSink::default()))).collect(), ser_hook: Mutex::new(None) }
     }
     fn handle(&self, p: u64) -> PeerHandle {
         PeerHandle::new(PeerId(p), self.sinks[&p].clone())
@@ -68,7 +79,9 @@ impl World {
             "len" => {
                 (json!([self.reg.len()]), Value::Null, 0)
             }
-            "broadcast" => {
+            n if n == "broadcast" || n.starts_with("broadcast:") => {
+                // "broadcast:<k>" forces the flavour (k as below; 8 = JSON of a value whose serialization runs a hook)
+                let flavour = n.strip_prefix("broadcast:").and_then(|k| k.parse::<u64>().ok()).unwrap_or(serial % 8);
                 // a body unique to this call, so deliveries can be attributed to it
                 let path = format!("/bc/{serial}");
                 let body = format!("body-{serial}").into_bytes();
@@ -76,16 +89,17 @@ impl World {
                 // caller's, delivered verbatim whatever the tag says
                 let hostile: Vec<u8> = [&[0x61u8, 0x80, 0x62, 0xFF, 0xE2, 0x82][..], format!("-{serial}").as_bytes()].concat();
                 let raw_tags = [BodyFormat::Utf8, BodyFormat::Json, BodyFormat::Beve, BodyFormat::RawBinary];
-                let (res, fmt): (HashMap<PeerId, Result<(), PeerSendError>>, u16) = match serial % 8 {
+                let (res, fmt): (HashMap<PeerId, Result<(), PeerSendError>>, u16) = match flavour {
                     0 => (self.reg.broadcast_notify_raw(&path, BodyFormat::RawBinary, &body), u16::from(BodyFormat::RawBinary)),
                     1 => (self.reg.broadcast_notify_utf8(&path, std::str::from_utf8(&body).unwrap()), u16::from(BodyFormat::Utf8)),
                     2 => (self.reg.broadcast_notify_json(&path, &serial).unwrap(), u16::from(BodyFormat::Json)),
                     3 => (self.reg.broadcast_notify_beve(&path, &serial).unwrap(), u16::from(BodyFormat::Beve)),
+                    8 => (self.reg.broadcast_notify_json(&path, &HookSer(self, serial)).unwrap(), u16::from(BodyFormat::Json)),
                     k => { let t = raw_tags[(k - 4) as usize]; (self.reg.broadcast_notify_raw(&path, t, &hostile), u16::from(t)) }
                 };
-                let want_body: Vec<u8> = match serial % 8 {
+                let want_body: Vec<u8> = match flavour {
                     0 | 1 => body.clone(),
-                    2 => serde_json::to_vec(&serial).unwrap(),
+                    2 | 8 => serde_json::to_vec(&serial).unwrap(),
                     3 => beve::to_vec(&serial).unwrap(),
                     _ => hostile.clone(),
                 };
@@ -429,35 +443,47 @@ pub fn hist(a: &Args) -> i32 {
     // moment the broadcast is taken to have happened at, its result must be the membership of ONE moment.
     let mut reentrant = 0u64;
     if nthreads >= 2 && npeers >= 3 {
-        for variant in 0..a.usize("reentrant", 6) {
+        for variant in 0..a.usize("reentrant", 18) {
             let w = Arc::new(World::new(&peers));
             let clock = Arc::new(AtomicU64::new(1));
             let log: Arc<Mutex<Vec<(u64, Value)>>> = Arc::new(Mutex::new(vec![(0, json!({"ev": "reset", "run": runs + variant}))]));
             let logged = |w: &Arc<World>, log: &Arc<Mutex<Vec<(u64, Value)>>>, clock: &Arc<AtomicU64>, serial: &Arc<AtomicU64>, t: u64, name: &str, p: u64, k: &str| {
                 let s = serial.fetch_add(1, Ordering::Relaxed);
                 let t_inv = clock.fetch_add(1, Ordering::SeqCst);
-                log.lock().unwrap().push((t_inv, json!({"ev": "inv", "t": t, "op": {"name": name, "p": p, "k": k}})));
+                let logged_name = if name.starts_with("broadcast") { "broadcast" } else { name };
+                log.lock().unwrap().push((t_inv, json!({"ev": "inv", "t": t, "op": {"name": logged_name, "p": p, "k": k}})));
                 let (ret, deliv, bad) = w.exec(name, p, k, s);
                 let t_res = clock.fetch_add(1, Ordering::SeqCst);
                 let mut e = json!({"ev": "res", "t": t, "ret": ret});
-                if name == "broadcast" { e["deliv"] = deliv; e["bad"] = json!(bad); }
+                if logged_name == "broadcast" { e["deliv"] = deliv; e["bad"] = json!(bad); }
                 log.lock().unwrap().push((t_res, e));
             };
             // originals: two of the three peers, the third arrives from inside the broadcast
             let orig: Vec<u64> = match variant % 3 { 0 => vec![1, 2], 1 => vec![2, 3], _ => vec![1, 3] };
             let newcomer = (1..=3u64).find(|p| !orig.contains(p)).unwrap();
             for p in &orig { logged(&w, &log, &clock, &serial, 1, "insert", *p, ""); }
-            if variant >= 3 { logged(&w, &log, &clock, &serial, 1, "alias", orig[0], "a"); }
+            if variant % 6 >= 3 { logged(&w, &log, &clock, &serial, 1, "alias", orig[0], "a"); }
             let fired = Arc::new(std::sync::atomic::AtomicBool::new(false));
-            for p in &orig {
-                let (w2, log2, clock2, serial2, fired2, me, orig2) = (w.clone(), log.clone(), clock.clone(), serial.clone(), fired.clone(), *p, orig.clone());
-                *w.sinks[p].on_send.lock().unwrap() = Some(Box::new(move || {
-                    if fired2.swap(true, Ordering::SeqCst) { return; }
-                    logged(&w2, &log2, &clock2, &serial2, 2, "insert", newcomer, "");
-                    for q in orig2.iter().filter(|q| **q != me) { logged(&w2, &log2, &clock2, &serial2, 2, "remove", *q, ""); }
-                }));
+            let mode = variant / 6; // 0: insert + removes from inside the first delivery; 1: a NESTED broadcast from inside it; 2: an insert from inside the value's serialization
+            if mode == 2 {
+                let (w2, log2, clock2, serial2) = (w.clone(), log.clone(), clock.clone(), serial.clone());
+                *w.ser_hook.lock().unwrap() = Some(Box::new(move || { logged(&w2, &log2, &clock2, &serial2, 2, "insert", newcomer, ""); }));
+            } else {
+                for p in &orig {
+                    let (w2, log2, clock2, serial2, fired2, me, orig2) = (w.clone(), log.clone(), clock.clone(), serial.clone(), fired.clone(), *p, orig.clone());
+                    *w.sinks[p].on_send.lock().unwrap() = Some(Box::new(move || {
+                        if fired2.swap(true, Ordering::SeqCst) { return; }
+                        if mode == 1 {
+                            // the same kind of broadcast, another body, on the same thread, while the outer one is fanning out
+                            logged(&w2, &log2, &clock2, &serial2, 2, if variant % 2 == 0 { "broadcast:3" } else { "broadcast:2" }, 0, "");
+                            return;
+                        }
+                        logged(&w2, &log2, &clock2, &serial2, 2, "insert", newcomer, "");
+                        for q in orig2.iter().filter(|q| **q != me) { logged(&w2, &log2, &clock2, &serial2, 2, "remove", *q, ""); }
+                    }));
+                }
             }
-            logged(&w, &log, &clock, &serial, 1, "broadcast", 0, "");
+            logged(&w, &log, &clock, &serial, 1, match mode { 0 => "broadcast", 1 => if variant % 2 == 0 { "broadcast:3" } else { "broadcast:2" }, _ => "broadcast:8" }, 0, "");
             for p in &orig { *w.sinks[p].on_send.lock().unwrap() = None; }
             logged(&w, &log, &clock, &serial, 1, "len", 0, "");
             logged(&w, &log, &clock, &serial, 1, "broadcast", 0, "");
